@@ -18,7 +18,13 @@ ABBR = ["jan", "feb", "mar", "apr", "may", "jun", "jul", "aug", "sep", "oct", "n
 def _settings(inp, case, **extra):
     from pyvc.harness import make_settings
 
-    now = inp.datetime("now")
+    if case.get("aware_offset_h") is not None:
+        # an offset-aware reference time: its own calendar day is the reference day
+        import datetime as _dtm
+
+        now = inp.datetime("now", tz=_dtm.timezone(_dtm.timedelta(hours=case["aware_offset_h"])))
+    else:
+        now = inp.datetime("now")
     kw = dict(RELATIVE_BASE=now, TIMEZONE="UTC")
     for k in ("PREFER_DAY_OF_MONTH", "PREFER_MONTH_OF_YEAR", "PREFER_DATES_FROM",
               "RETURN_TIME_AS_PERIOD", "DATE_ORDER", "STRICT_PARSING", "REQUIRE_PARTS"):
@@ -67,6 +73,14 @@ class parse_incomplete:
                     for mo in (months if thorough else ["february", "nov"]):
                         for nd in (1, 2):
                             out.append(dict(base, form="full", month=mo, daydigits=nd))
+        # offset-aware reference times (east and west of UTC): the reference's own day / month count
+        for off in (-5, 9):
+            for pd in PREFS:
+                out.append(dict(form="month-year", month="march", aware_offset_h=off,
+                                PREFER_DAY_OF_MONTH=pd, PREFER_MONTH_OF_YEAR="current",
+                                PREFER_DATES_FROM="current_period"))
+            out.append(dict(form="year", aware_offset_h=off, PREFER_DAY_OF_MONTH="current",
+                            PREFER_MONTH_OF_YEAR="current", PREFER_DATES_FROM="current_period"))
         # period 'time' iff requested and a clock time is present
         for rtp in (False, True):
             out.append(dict(form="full-time", month="november", daydigits=2,
@@ -776,3 +790,101 @@ class absolute_formats:
 
 
 CONTRACTS += [absolute_formats]
+
+
+class time_only_zone:
+    """C09 "TIMEZONE settings for the time-only form": `_correct_for_time_frame` with TIMEZONE a
+    tz-database zone (abstract in the proof).  The reference time is a UTC wall clock; the named clock
+    time is read in the zone, *with the offset in force at that named wall clock*; 'past' steps a day
+    back iff the reference lies before that instant, 'future' a day forward iff after it."""
+
+    name = "parser._parser._correct_for_time_frame/time-only-in-a-zone"
+    func = "dateparser.parser._parser._correct_for_time_frame"
+    props = ["C09"]
+
+    @staticmethod
+    def cases(thorough=False):
+        return [dict(PREFER_DATES_FROM=pf, TIMEZONE=z) for pf in ("past", "future", "current_period")
+                for z in ("pytz", "static")]
+
+    @staticmethod
+    def setup(inp, case):
+        from contracts.c_tz import Env
+        from dateparser.parser import _parser, tokenizer
+        from pyvc.harness import build, make_settings
+
+        env = Env(inp, {"ZoneA": case["TIMEZONE"]})
+        now = inp.datetime("now", lo_year=10 if inp.symbolic else 1971, hi_year=9990 if inp.symbolic else 2037)
+        st = make_settings(RELATIVE_BASE=now, TIMEZONE=env.name("ZoneA"),
+                           PREFER_DATES_FROM=case["PREFER_DATES_FROM"])
+        s, f_ = build(inp, [("H", 2), ":", ("M", 2)])
+        H, M = f_["H"], f_["M"]
+        inp.assume(And(H <= 23, M <= 59))
+
+        def f(s, settings):
+            po = _parser(tokenizer(s).tokenize(), settings)
+            d = po._results()
+            return po._correct_for_time_frame(d, None)
+
+        return f, (s, st), {}, dict(now=now, H=H, M=M, env=env)
+
+    @staticmethod
+    def post(case, g, out):
+        from contracts.c_tz import _wall_us
+
+        if not out.ok:
+            return {"no-exception": False}
+        now, env = g["now"], g["env"]
+        dt = out.value
+        today = _combine(now, g["H"], g["M"])
+        cand = env.instant(env.zone("ZoneA"), today)  # the named wall clock of the reference's date
+        n_us = _wall_us(now)
+        pf = case["PREFER_DATES_FROM"]
+        if pf == "past":
+            k = Ite(n_us < cand, -1, 0)
+        elif pf == "future":
+            k = Ite(n_us > cand, 1, 0)
+        else:
+            k = 0
+        exp = _shift_days(today, k)
+        return {"no-exception": True,
+                "clock-time-preserved": And(dt.hour == g["H"], dt.minute == g["M"]),
+                "day-decided-with-the-offset-in-force-at-the-named-time": same_fields(
+                    dt, exp.year, exp.month, exp.day, g["H"], g["M"])}
+
+    @staticmethod
+    def witnesses(case, model):
+        import datetime as _d
+
+        import pytz
+
+        from contracts.c_tz import CATALOGUE_PYTZ
+
+        out = []
+        if case["TIMEZONE"] != "pytz":
+            return out
+        for year in (2021, 2024):
+            for zi, zname in enumerate(CATALOGUE_PYTZ):
+                z = pytz.timezone(zname)
+                tts, infos = getattr(z, "_utc_transition_times", []), getattr(z, "_transition_info", [])
+                for i, t in enumerate(tts):
+                    if t.year != year or i == 0:
+                        continue
+                    o1, o2 = infos[i - 1][0], infos[i][0]
+                    if o2 <= o1:
+                        continue
+                    wall = t + o1 - _d.timedelta(minutes=30)  # half an hour before the skipped hour
+                    c = wall - o1
+                    for now in (c - _d.timedelta(minutes=20), c + (o2 - o1) / 2 - _d.timedelta(minutes=50)):
+                        if now.date() != wall.date():
+                            continue
+                        vals = dict(model)
+                        vals.update({"idx_ZoneA": zi, "now_y": now.year, "now_m": now.month, "now_d": now.day,
+                                     "now_H": now.hour, "now_M": now.minute, "now_S": 0, "now_us": 0,
+                                     "H0": wall.hour // 10, "H1": wall.hour % 10,
+                                     "M0": wall.minute // 10, "M1": wall.minute % 10})
+                        out.append(vals)
+        return out
+
+
+CONTRACTS += [time_only_zone]
